@@ -413,3 +413,57 @@ DISCRIMINATING_DOC = """\
 
 He said "it's fine"... and left. This is a second sentence that is long enough to need wrapping at narrow widths, honestly. A third one follows here.
 """
+
+
+# ---------------------------------------------------------------------------------------------
+# probe battery: small fixed documents, each sensitive to one kind of leaked state. Used after a
+# victim / history prefix so that whatever an earlier call left behind has a chance to show.
+
+PROBE_DOCS = [
+    # template tags and HTML comments on their own lines (tag newline handling)
+    "<!-- note -->\nText right after a comment line.\n\n{% field kind=\"string\" id=\"name\" %}\nInside the field.\n{% /field %}\n\n{# jinja comment #}\nAfter it.\n",
+    # starts with a table, then blank line and text; thematic break; link reference definition first
+    "| a | b |\n| --- | --- |\n| 1 | 2 |\n\nSome text after the table. It has two sentences.\n\n* * *\n\nAfter the rule.\n",
+    "[ref]: https://example.com/ref \"Title\"\n\nUses [ref] and [text][ref]. And [undefined] stays literal, as does [^nofn].\n",
+    # tight, loose and nested lists
+    "- tight one\n- tight two\n  - nested a\n  - nested b\n\n1. loose one\n\n2. loose two\n\n   second paragraph of two\n\n- [ ] task\n- [x] done\n",
+    # footnotes and reference links
+    "A claim[^1] and another[^note]. See [docs][d].\n\n[^1]: First footnote text that is long enough to be wrapped when the width is small, really.\n\n[^note]: Second.\n\n    Continued paragraph.\n\n[d]: https://example.com/docs\n",
+    # headings (bold, setext), quote, alert
+    "# **Bold title**\n\nIntro paragraph.\n\nSetext\n------\n\n> quoted line one\n> quoted line two\n\n> [!NOTE]\n> An alert body.\n\n## Last heading\n",
+    # typography: quotes, apostrophes, ellipses, code spans
+    "He said \"it's fine\"... and `code \"stays\"` here. 'Single' quotes too. Wait... what? Don't.\n",
+    # fenced code inside a list, indented code, html block
+    "- item\n\n  ```python\n  x = \"q\"  # don't...\n\n  y = 1\n  ```\n\n- next\n\n<div>\nraw html\n</div>\n\n    indented code\n",
+    # long multi-sentence paragraph (semantic breaks, min line length rule)
+    "Yes. Short start then a considerably longer sentence that will need to be wrapped at most of the widths in use here. No. Another sentence, e.g. with an abbreviation, follows it. OK.\n",
+]
+
+
+# every feature in one document: the very first call after a victim sees all of them
+PROBE_ALL = "\n".join(PROBE_DOCS[i] for i in (1, 0, 3, 5, 4, 2, 6, 7, 8))
+
+
+def plain_sentence(rng: random.Random) -> str:
+    ws = [_word(rng) for _ in range(rng.randint(4, 14))]
+    ws[0] = ws[0].capitalize()
+    return " ".join(ws) + rng.choice([".", ".", "?", "!"])
+
+
+def gen_plain_doc(rng: random.Random) -> str:
+    """A document without template tags, HTML or comments (paragraphs, lists, headings only)."""
+    parts = []
+    for _ in range(rng.randint(1, 5)):
+        r = rng.random()
+        if r < 0.5:
+            parts.append(" ".join(plain_sentence(rng) for _ in range(rng.randint(1, 4))))
+        elif r < 0.7:
+            parts.append("\n".join("- " + plain_sentence(rng) for _ in range(rng.randint(2, 4))))
+        elif r < 0.85:
+            parts.append("#" * rng.randint(1, 3) + " " + plain_sentence(rng).rstrip(".?!"))
+        else:
+            depth = rng.randint(2, 6)
+            parts.append("\n".join("  " * i + "- level " + str(i) for i in range(depth)))
+    if rng.random() < 0.3:
+        parts.append("## " + plain_sentence(rng).rstrip(".?!"))  # ends right after a heading
+    return "\n\n".join(parts) + "\n"
